@@ -360,6 +360,83 @@ def r18_6(ctx, counts) -> RuleResult:
                 walk(st.finalbody)
 
     walk(f.node.body)
+    # recursive calls inside comprehensions: bind the comprehension targets first
+    for comp in ast.walk(f.node):
+        if isinstance(comp, (ast.GeneratorExp, ast.ListComp)):
+            saved = dict(env)
+            for g in comp.generators:
+                it = g.iter
+                if isinstance(it, ast.Call) and dotted(it.func).split('.')[-1] in (
+                        'zip', 'zip_longest') and isinstance(g.target, ast.Tuple) and \
+                        len(g.target.elts) == len(it.args):
+                    for t, a in zip(g.target.elts, it.args):
+                        bind(t, a)
+                else:
+                    bind(g.target, it)
+            for n in ast.walk(comp.elt):
+                if isinstance(n, ast.Call) and dotted(n.func) == f.name and len(n.args) >= 2:
+                    calls[:] = [t_ for t_ in calls if t_[0] is not n]
+                    calls.append((n, derive(n.args[0]), derive(n.args[1])))
+            env.clear()
+            env.update(saved)
+    calls[:] = [(c_, a_, b_) for c_, a_, b_ in calls
+                if not (a_ is None and b_ is None and any(
+                    c_ is c2 and (a2 is not None or b2 is not None) for c2, a2, b2 in calls))]
+    # full-length comparison of the two parameter lists
+    arity_ok = None
+    arity_why = ''
+    for n in ast.walk(f.node):
+        if isinstance(n, ast.Call) and dotted(n.func).split('.')[-1] == 'zip_longest':
+            # both loop targets must be rejected when None
+            rejected: set[str] = set()
+            targets: set[str] = set()
+            for lp in ast.walk(f.node):
+                if isinstance(lp, ast.For) and lp.iter is n and isinstance(lp.target, ast.Tuple):
+                    targets = {t.id for t in lp.target.elts if isinstance(t, ast.Name)}
+                    for st_ in ast.walk(lp):
+                        if isinstance(st_, ast.If) and st_.body and \
+                                isinstance(st_.body[0], ast.Return) and \
+                                isinstance(st_.body[0].value, ast.Constant) and \
+                                st_.body[0].value.value is False:
+                            for c_ in ast.walk(st_.test):
+                                if isinstance(c_, ast.Compare) and len(c_.ops) == 1 and \
+                                        isinstance(c_.ops[0], ast.Is) and \
+                                        isinstance(c_.comparators[0], ast.Constant) and \
+                                        c_.comparators[0].value is None and \
+                                        isinstance(c_.left, ast.Name):
+                                    rejected.add(c_.left.id)
+            if targets and targets <= rejected:
+                arity_ok, arity_why = True, 'zip_longest, a missing parameter on either side returns False'
+            else:
+                arity_ok = False
+                arity_why = (f'zip_longest pads the shorter list with None but only '
+                             f'{sorted(rejected) or "no side"} is rejected when None')
+        elif isinstance(n, ast.Call) and dotted(n.func) == 'zip':
+            if any(k.arg == 'strict' and isinstance(k.value, ast.Constant) and k.value.value
+                   for k in n.keywords):
+                arity_ok, arity_why = True, 'zip(strict=True)'
+            elif arity_ok is None:
+                lens = [c_ for c_ in ast.walk(f.node) if isinstance(c_, ast.Compare)
+                        and len(c_.ops) == 1 and 'len(' in stmt_text(c_.left)
+                        and 'len(' in stmt_text(c_.comparators[0])]
+                if any(isinstance(c_.ops[0], (ast.NotEq, ast.Eq)) for c_ in lens):
+                    arity_ok, arity_why = True, 'zip with an equality test of the two lengths'
+                else:
+                    arity_ok = False
+                    arity_why = ('zip truncates to the shorter list and the lengths are '
+                                 + ('only compared one-sidedly (' + stmt_text(lens[0]) + ')'
+                                    if lens else 'never compared'))
+    if arity_ok is None:
+        raise AnalysisError('is_sequence_type_restriction: iteration over the two parameter '
+                            'lists not located')
+    res.instances.append(f'parameter lists compared over their full length: {arity_ok} ({arity_why})')
+    if arity_ok:
+        res.ok()
+    else:
+        res.fail(finding('R18.6', f, f.node, 'function-test arity',
+                         f'the parameter lists of the two function tests are not required to '
+                         f'have the same length: {arity_why}; a binary function is accepted as '
+                         f'function(xs:integer) as xs:integer'))
     seen = {'params': 0, 'ret': 0}
     for call, a, b in calls:
         label = f'{stmt_text(call)[:70]}: args from {a} , {b}'
@@ -388,6 +465,76 @@ def r18_6(ctx, counts) -> RuleResult:
     return res
 
 
+def r18_7(ctx, counts) -> RuleResult:
+    """a sequence matches T* / T+ only if every item matches T"""
+    from ..engine.cfg import CFG
+    from ..engine.srcmodel import walk_local
+    model: Model = ctx.model
+    res = RuleResult(
+        'R18.7', 'EVERY-ITEM-TESTED',
+        'In sequence_types.match_sequence_type the branch for a list of items tests every item '
+        'with the item matcher: it is `all(match_st(x, st) for x in v)` without a filter, or a '
+        'loop over the list in which every path from the loop header to the next iteration '
+        'passes the call match_st(x, …). A memo keyed by type(x) (or any other shortcut) lets '
+        '(b, b, c) match element(b)+.')
+    mod = model.module('elementpath.sequence_types')
+    outer = mod.toplevel_function('match_sequence_type')
+    if outer is None:
+        raise AnalysisError('sequence_types.match_sequence_type vanished')
+    inner = [g for g in mod.functions.values() if g.parent is outer and g.name == 'match_st']
+    if not inner:
+        raise AnalysisError('match_sequence_type.match_st vanished')
+    f = inner[0]
+    v = f.params()[0]
+    n = 0
+    for x in walk_local(f.node):
+        if isinstance(x, ast.Call) and dotted(x.func) in ('all', 'any') and x.args and \
+                isinstance(x.args[0], (ast.GeneratorExp, ast.ListComp)):
+            comp = x.args[0]
+            if len(comp.generators) == 1 and dotted(comp.generators[0].iter) == v and \
+                    isinstance(comp.elt, ast.Call) and dotted(comp.elt.func) == f.name:
+                n += 1
+                ok = dotted(x.func) == 'all' and not comp.generators[0].ifs
+                res.instances.append(f'{f.key}: {stmt_text(x)[:60]} tests every item={ok}')
+                if ok:
+                    res.ok()
+                else:
+                    res.fail(finding('R18.7', f, x, 'filtered or existential item test',
+                                     f'`{stmt_text(x)[:60]}` does not test every item of the '
+                                     f'sequence against the item type'))
+    loops = [lp for lp in walk_local(f.node) if isinstance(lp, ast.For) and dotted(lp.iter) == v
+             and any(isinstance(c, ast.Call) and dotted(c.func) == f.name for c in ast.walk(lp))]
+    if loops:
+        cfg = CFG(f.node)
+        for lp in loops:
+            n += 1
+            head = [nd for nd in cfg.nodes if nd.ast is lp and nd.kind == 'for']
+            tests = [nd for nd in cfg.nodes if nd.ast is not None and nd.kind in ('stmt', 'test')
+                     and any(isinstance(c, ast.Call) and dotted(c.func) == f.name
+                             for c in ast.walk(nd.ast.test if isinstance(nd.ast, (ast.If, ast.While))
+                                               else nd.ast))
+                     and any(y is nd.ast or y is getattr(nd.ast, 'test', None)
+                             for b in lp.body for y in ast.walk(b))]
+            if not head or not tests:
+                raise AnalysisError(f'{f.key}: item loop / item test not located in the CFG')
+            # a path from the header into the body and back to the header avoiding the test
+            p = cfg.path_avoiding(head, lambda q: q is head[0], lambda q: q in tests,
+                                  follow=None)
+            res.instances.append(f'{f.key}: loop over {v} at L{lp.lineno}: every iteration '
+                                 f'passes the item test: {p is None}')
+            if p is None:
+                res.ok()
+            else:
+                res.fail(finding('R18.7', f, lp, 'iteration skips the item test',
+                                 f'an iteration of the loop over the items can complete without '
+                                 f'calling {f.name}() for its item ({cfg.fmt_path(p)[:160]}): '
+                                 f'(b, b, c) is accepted as element(b)+'))
+    counts['item_quantifiers'] = n
+    if n < 1:
+        raise AnalysisError('match_st: the every-item test of the list branch was not located')
+    return res
+
+
 def run(ctx) -> dict:
     counts: dict[str, int] = {}
     from .c10_datatypes import r10_1, SPEC as C10SPEC
@@ -399,7 +546,8 @@ def run(ctx) -> dict:
                                   'is_sequence_type', 'is_instance', 'validated_result',
                                   'validated_argument', 'validated_value'}, rule='R05.1')
     r4.title = 'JUDGEMENT-PURITY (R18.4 = R05.1 on the sequence-type judgement code)'
-    results = [r18_1(ctx, counts), r18_2(ctx, counts), r3, r4, r18_6(ctx, counts)]
+    results = [r18_1(ctx, counts), r18_2(ctx, counts), r3, r4, r18_6(ctx, counts),
+               r18_7(ctx, counts)]
     return {
         'results': results, 'counts': counts,
         'explanation':
